@@ -5,6 +5,8 @@
    reach any wire value or machine state; (c) is compared as multisets by the check. *)
 From Coq Require Import Permutation.
 From HclV Require Import Base Expr Machine MachineSpec MachineProofs SchedSpec SchedProofs C12Lemmas TableSpec TableProofs.
+From HclV Require OrderSpec OrderProofs DiagOrderSpec DiagOrderProofs LoopProofs RenameSpec RenameProofs.
+From HclV Require Import Generated.
 Open Scope string_scope.
 Open Scope N_scope.
 
@@ -70,3 +72,78 @@ Print Assumptions C12_run_map_order_free.
 Theorem C12_map_keys_stay_distinct : stmt_initial_keys_distinct /\ stmt_step_keys_distinct.
 Proof. split; [exact initial_keys_distinct_holds | exact step_keys_distinct_holds]. Qed.
 Print Assumptions C12_map_keys_stay_distinct.
+
+(* ---- (e) reordering the statements (OrderSpec.v / OrderProofs.v): see also C01 ---------------- *)
+Theorem C12_reordering_statements_keeps_values_and_state :
+  forall f is_lower is_upper, OrderSpec.stmt_simulation_order_free f is_lower is_upper.
+Proof. exact OrderProofs.simulation_order_free_holds. Qed.
+Print Assumptions C12_reordering_statements_keeps_values_and_state.
+
+(* the final dump is byte-identical when banks sharing an output letter keep their relative order;
+   in general only the order of bank lines within one letter can differ *)
+Theorem C12_reordering_statements_and_the_dump : OrderSpec.stmt_dump_order_free /\ OrderSpec.stmt_dump_banks_same_lines.
+Proof. split; [exact OrderProofs.dump_order_free_holds | exact OrderProofs.dump_banks_same_lines_holds]. Qed.
+Print Assumptions C12_reordering_statements_and_the_dump.
+
+(* a rejected program stays rejected under reordering; WHICH diagnostics are shown may change with
+   the statement order (three computed reasons: the last of two declarations wins, which of two
+   loops is met first, a duplicated register is skipped) - observations, identical in the code *)
+Theorem C12_reordered_rejected_program_is_rejected : OrderSpec.stmt_rejection_order_free.
+Proof. exact OrderProofs.rejection_order_free_holds. Qed.
+Print Assumptions C12_reordered_rejected_program_is_rejected.
+Theorem C12_diagnostics_may_depend_on_statement_order : ~ OrderSpec.stmt_diagnostics_order_free.
+Proof. exact OrderProofs.diagnostics_order_free_refuted. Qed.
+Print Assumptions C12_diagnostics_may_depend_on_statement_order.
+
+(* ---- (f) "A rejected program is rejected on every run, with the same kinds of diagnostics about
+   the same names (when several dependency loops exist, which one is shown may differ)":
+   DiagOrderSpec.build_program_with = Program::new with an arbitrary reordering inserted at each of
+   its twelve hash-iteration sites (assign_spans, constants_raw twice, referenced_wires() four
+   times, needed_wires, assignments, seen_undeclared, the sorter's tables twice); with the identity
+   it IS Build.build_program.  For any two orders: both accept the same program (actions up to
+   order) or both reject with the same diagnostics up to order - or both report one real loop *)
+Theorem C12_model_iteration_order_is_the_identity : DiagOrderSpec.stmt_build_with_id.
+Proof. exact DiagOrderProofs.build_with_id_holds. Qed.
+Print Assumptions C12_model_iteration_order_is_the_identity.
+
+Theorem C12_diagnostics_do_not_depend_on_hash_order :
+  forall f is_lower is_upper o o' stmts, DiagOrderSpec.ord_ok o -> DiagOrderSpec.ord_ok o' ->
+    DiagOrderSpec.same_outcome_build gen_fixed stmts
+      (DiagOrderSpec.build_program_with f gen_fixed is_lower is_upper o stmts)
+      (DiagOrderSpec.build_program_with f gen_fixed is_lower is_upper o' stmts).
+Proof.
+  intros f il iu. apply (DiagOrderProofs.diagnostics_order_free_holds f gen_fixed il iu).
+  exact LoopProofs.gen_fixed_distinct.
+Qed.
+Print Assumptions C12_diagnostics_do_not_depend_on_hash_order.
+
+(* ---- (g) "Renaming wires consistently ... leaves every wire's value in every cycle and the final
+   machine state unchanged" (RenameSpec.v / RenameProofs.v).  A consistent renaming: r on wires and
+   constants, q on register names inside banks (bank names kept), with r injective on the names the
+   program mentions or generates, fixing the built-in wires, and compatible with the bank signals
+   (r x_foo = x_(q foo), r Y_foo = Y_(q foo), stall_Y / bubble_Y fixed); each condition is shown
+   necessary by a computed program *)
+Theorem C12_renaming_commutes_with_Program_new :
+  forall f is_lower is_upper r q stmts,
+    RenameSpec.consistent_renaming r q gen_fixed stmts ->
+    Build.build_program f gen_fixed is_lower is_upper (map (RenameSpec.rename_stmt r q) stmts) =
+    RenameSpec.rename_build_result r q (Build.build_program f gen_fixed is_lower is_upper stmts).
+Proof. exact RenameProofs.rename_acceptance_holds. Qed.
+Print Assumptions C12_renaming_commutes_with_Program_new.
+
+(* after any number of cycles: the wire r k of the renamed run holds what k holds in the original
+   run; memory, registers, status and cycle count are equal *)
+Theorem C12_renaming_keeps_values_and_state : RenameSpec.stmt_rename_wire_values.
+Proof. exact RenameProofs.rename_wire_values_holds. Qed.
+Print Assumptions C12_renaming_keeps_values_and_state.
+
+(* the state dump of the renamed run is the original dump with each register name printed in a
+   bank line passed through q; with q the identity it is byte-identical *)
+Theorem C12_renaming_and_the_dump : RenameSpec.stmt_rename_dump /\ RenameSpec.stmt_rename_dump_equal.
+Proof. split; [exact RenameProofs.rename_dump_holds | exact RenameProofs.rename_dump_equal_holds]. Qed.
+Print Assumptions C12_renaming_and_the_dump.
+
+(* the sorter commutes with an injective renaming of its nodes: same order, same cycle *)
+Theorem C12_sorter_commutes_with_renaming : RenameSpec.stmt_toposort_rename.
+Proof. exact RenameProofs.toposort_rename_holds. Qed.
+Print Assumptions C12_sorter_commutes_with_renaming.
